@@ -4,6 +4,7 @@ CONSTANTS
  Shapes <- ShOk1
  MaxFaults = 1
  MaxCrashes = 1
+ MaxIdxLoss = 0
  InlineAt = 0
  Interval = 2
  MBs = {80}
